@@ -41,7 +41,7 @@ def equal_but_distinct_blocks(circ):
     return out
 
 
-KF_SHIFT_POSITION = 'known:coordinate-shift-position'
+KF_SHIFT_POSITION = 'coordinate-shift-position'   # was known finding F11, repaired in /repo (b86fa2d)
 
 
 def shift_only_difference(a, b, is_shift):
